@@ -346,6 +346,7 @@ func (c *Ctx) ord7() {
 	fail.done(2, "both resend failure exits close the connection and deposit connDown")
 	dfail.done(1, "a failed dial/handshake deposits connDown")
 	pub.done(2, "the read routine adopts the connection only on the success path")
+	c.ord7Close(dial, hk)
 }
 
 func pathxDialResult(p *pathx.Path) ssa.Value {
@@ -391,7 +392,14 @@ func (c *Ctx) ord9() {
 				okT := false
 				if call, ok := arg.(*ssa.Call); ok {
 					if f := call.Call.StaticCallee(); f != nil && f.Name() == "spoolFile" {
-						if pr, ok := call.Call.Args[len(call.Call.Args)-1].(*ssa.Parameter); ok && pr.Type().String() == "uint" {
+						// the key as resolved on this path (a parameter captured by a function literal lives in a cell)
+						key := call.Call.Args[len(call.Call.Args)-1]
+						for j := 0; j < i; j++ {
+							if ce := &p.Events[j]; ce.Kind == pathx.KCall && ce.Result == ssa.Value(call) && len(ce.Args) > 0 {
+								key = ce.Args[len(ce.Args)-1]
+							}
+						}
+						if pr, ok := key.(*ssa.Parameter); ok && pr.Type().String() == "uint" {
 							okT = true
 						}
 					}
@@ -881,4 +889,94 @@ func isBlockingIO(e *pathx.Event) bool {
 		return true
 	}
 	return false
+}
+
+// ord7Close: a connect attempt that fails after the dial succeeded leaves no
+// open connection behind. On every path of dialAndConnect (handshake expanded
+// in place) that returns an error after Dialer returned nil, the dialled
+// connection is closed, or the error came out of the abort watcher, whose
+// every non-nil report is preceded by its own Close of that connection.
+func (c *Ctx) ord7Close(dial, hk *ssa.Function) {
+	a := c.acc("ORD-7", dial, "failure-after-dial⇒connection-closed")
+	w := c.acc("ORD-7", dial, "abort-watcher-closes-before-it-reports")
+	isClose := func(e *pathx.Event, conn ssa.Value) bool {
+		return e.Kind == pathx.KCall && e.Method != nil && e.Method.Name() == "Close" && recvTypeName(e.Method) == "net.Conn" && len(e.Args) > 0 && e.Args[0] == conn
+	}
+	// the watcher goroutine(s) started by dialAndConnect
+	var watchers []*ssa.Function
+	for _, b := range dial.Blocks {
+		for _, ins := range b.Instrs {
+			if g, ok := ins.(*ssa.Go); ok {
+				if mc, ok := g.Call.Value.(*ssa.MakeClosure); ok {
+					watchers = append(watchers, mc.Fn.(*ssa.Function))
+				}
+			}
+		}
+	}
+	abortReports := 0
+	for _, wf := range watchers {
+		for _, p := range c.Paths("ORD-7", wf) {
+			closed := false
+			for i := range p.Events {
+				e := &p.Events[i]
+				if e.Kind == pathx.KCall && e.Method != nil && e.Method.Name() == "Close" && recvTypeName(e.Method) == "net.Conn" {
+					closed = true
+				}
+				if e.Kind == pathx.KSend && e.Val != nil && e.Val.Type().String() == "error" && !pathx.IsNilConst(e.Val) {
+					abortReports++
+					if closed {
+						w.pass()
+					} else {
+						w.fail(p, i, "the watcher reports an abort without having closed the connection: dialAndConnect returns that error and leaves the connection open")
+					}
+				}
+			}
+		}
+	}
+	if abortReports == 0 {
+		w.failAt(c.P.Pos(dial.Pos()), "no abort report found in a goroutine of dialAndConnect")
+	}
+	w.done(1, "every error sent by the watcher follows conn.Close()")
+
+	for _, p := range c.pathsInline("ORD-7", dial, map[*ssa.Function]bool{hk: true}) {
+		if p.Start != dial.Blocks[0] || p.End != pathx.KReturn {
+			continue
+		}
+		last := len(p.Events) - 1
+		if retErr(p, last) == triNil {
+			continue
+		}
+		conn := pathxDialResult(p)
+		if conn == nil {
+			continue // failed before or at the dial
+		}
+		di := p.Index(0, func(e *pathx.Event) bool {
+			return e.Kind == pathx.KCall && e.Callee == nil && e.Method == nil && e.Call != nil && roleKey(e.Call.Value) == "Config.Dialer"
+		})
+		if n, k := nilResult(p, di, -1); !k || !n {
+			continue // the dial failed: nothing to close
+		}
+		ok := false
+		for i := di; i < len(p.Events); i++ {
+			if isClose(&p.Events[i], conn) {
+				ok = true
+			}
+		}
+		// the returned error was received from the watcher
+		if r := p.Events[last].Results; len(r) > 0 {
+			ev := r[len(r)-1]
+			for i := di; i < last; i++ {
+				e := &p.Events[i]
+				if e.Kind == pathx.KRecv && e.Result == ev && e.Fn == dial {
+					ok = true
+				}
+			}
+		}
+		if ok {
+			a.pass()
+		} else {
+			a.fail(p, last, "dialAndConnect returns an error after a successful dial without closing the connection: a refused, malformed or missing CONNACK leaves the socket open")
+		}
+	}
+	a.done(3, "every failure exit behind the dial closes the connection or reports the watcher's abort")
 }
